@@ -395,3 +395,52 @@ def uninstall(module):
         module.floor = math.floor
     if "math" in module.__dict__:
         module.math = math
+
+
+class SymAddr:
+    """ipaddress.IPv4Address / IPv6Address of symbolic bytes: only identity, equality and logging are meaningful."""
+
+    def __init__(self, sb, version):
+        self.sb, self.version = sb, version
+
+    def __str__(self):
+        return self          # Session calls .__str__() explicitly and hands the result to the packet builder
+
+    def __format__(self, spec):
+        return "<symaddr>"
+
+    def __repr__(self):
+        return "<symaddr>"
+
+    def __eq__(self, o):
+        if isinstance(o, SymAddr):
+            return self.sb == o.sb
+        return False
+
+    def __hash__(self):
+        raise Unsupported("hash of symbolic address")
+
+    def encode(self, *a):
+        return self
+
+
+def _addr_shim(version):
+    import ipaddress
+    real = ipaddress.IPv4Address if version == 4 else ipaddress.IPv6Address
+
+    def make(x):
+        if isinstance(x, SymBytes):
+            if x.is_concrete():
+                return real(_bytes(x.e))
+            if len(x) != (4 if version == 4 else 16):
+                raise ipaddress.AddressValueError("%r" % (x,))
+            return SymAddr(x, version)
+        return real(x)
+    return make
+
+
+def install_addr_shims(module):
+    if hasattr(module, "IPv4Address"):
+        module.IPv4Address = _addr_shim(4)
+    if hasattr(module, "IPv6Address"):
+        module.IPv6Address = _addr_shim(6)
